@@ -81,7 +81,7 @@ pub struct SlateV4 {
 	/// as the transaction progresses
 	#[serde(
 		serialize_with = "secp_ser::as_hex",
-		deserialize_with = "secp_ser::blind_from_hex"
+		deserialize_with = "ser::blind_from_hex"
 	)]
 	#[serde(default = "default_offset_zero")]
 	#[serde(skip_serializing_if = "offset_is_zero")]
@@ -200,15 +200,15 @@ pub struct VersionCompatInfoV4 {
 #[derive(Serialize, Deserialize, Debug, Clone, PartialEq, Eq)]
 pub struct ParticipantDataV4 {
 	/// Public key corresponding to private blinding factor
-	#[serde(with = "secp_ser::pubkey_serde")]
+	#[serde(with = "ser::pubkey_serde")]
 	pub xs: PublicKey,
 	/// Public key corresponding to private nonce
-	#[serde(with = "secp_ser::pubkey_serde")]
+	#[serde(with = "ser::pubkey_serde")]
 	pub nonce: PublicKey,
 	/// Public partial signature
 	#[serde(default = "default_part_sig_none")]
 	#[serde(skip_serializing_if = "Option::is_none")]
-	#[serde(with = "secp_ser::option_sig_serde")]
+	#[serde(with = "ser::option_sig_serde")]
 	pub part: Option<Signature>,
 }
 
@@ -241,7 +241,7 @@ pub struct CommitsV4 {
 	/// The homomorphic commitment representing the output amount
 	#[serde(
 		serialize_with = "secp_ser::as_hex",
-		deserialize_with = "secp_ser::commitment_from_hex"
+		deserialize_with = "ser::commitment_from_hex"
 	)]
 	pub c: Commitment,
 	/// A proof that the commitment is in the right range
